@@ -25,7 +25,7 @@ ASSUMPTIONS = [
     'a source step larger than the smallest source step is a gap (the definition the property and the code share)',
     'the closing grid instant carries no water level; its label is not constrained',
 ]
-SIZES = {'quick': dict(n=3000, cli=60), 'thorough': dict(n=120000, cli=1600)}
+SIZES = {'quick': dict(n=8000, cli=80), 'thorough': dict(n=120000, cli=1600)}
 REQUIRED = {
     tier: {
         'loads-accepted-and-walked': 1000,
